@@ -74,6 +74,7 @@ func c16(c *Ctx) {
 	c16round(c, arbitratorPkg)
 	c16accounting(c, arbitratorPkg)
 	c16visitors(c, arbitratorPkg)
+	c16values(c)
 	c.RunLock("LOCK", LockCfg{Pkg: arbitratorPkg, Type: "arbitratorImpl", Mutex: "mu", Guarded: []string{"waitingCollection"}, MinFuncs: 4})
 	c.RunLock("LOCK", LockCfg{Pkg: arbitratorPkg, Type: "filter", Mutex: "arbitratedMapLock", Guarded: []string{"arbitratedPodMigrationJobs"}, MinFuncs: 3})
 }
